@@ -38,9 +38,7 @@ def exactify(e):
     return e.xreplace({f: sp.Rational(repr(float(f))) for f in fl})
 
 
-class _Obj:
-    def __init__(self, **kw):
-        self.__dict__.update(kw)
+_Obj = cas.Obj        # stub object; members the contract does not give resolve from the real class in the tree (helpers an edit extracts)
 
 
 def _vec(f):
